@@ -37,6 +37,10 @@ def run(ctx):
     B = [l[2:].split() for l in out.split('\n') if l.startswith('B ')]
     D = [l[2:] for l in out.split('\n') if l.startswith('D ')]
     failures = []
+    for l in out.split('\n'):
+        if l.startswith('P '):
+            failures.append({'clause': 'generator_is_total', 'key': 'panic:' + l.split()[1], 'what': l[2:],
+                             'how': 'MersenneTwister::with_seed(seed) and u32() repeatedly, or a raw value fed through MersenneTwister::verif_from_state'})
     for l in S:
         nums = [int(x) for x in re.findall(r'(\d+)%N', l)]
         seed, outs = nums[0], nums[1:]
